@@ -279,11 +279,12 @@ func c13Replay(c *core.Ctx, payload json.RawMessage) {
 		defer done()
 	}
 	w.newReports()
+	runOnce := c13FamilyExecOf(p.Family)
 	for i := 0; i < 3; i++ {
 		if p.Free {
-			goxRunOnce(dir, sc, 4, false, nil)
+			runOnce(dir, sc, 4, false, nil)
 		} else {
-			goxRunOnce(dir, sc, sc.CPU, true, p.Choices)
+			runOnce(dir, sc, sc.CPU, true, p.Choices)
 		}
 	}
 	for _, r := range w.newReports() {
